@@ -7,6 +7,7 @@ CONSTANTS
   C3 <- TC3
   RTok <- MRTok
   RLen = 5
+  RMidTok <- QRMid
   RLongTok <- TRLong
   SBits <- AllBits
 INVARIANT TtlFoldAgrees
